@@ -117,8 +117,8 @@ pub fn main() {
         tp.install(move || {
             let p = p;
             let w = unsafe { &mut *p.0 };
-            w.send(G0(Pay { serial: 0, ent: EntityId::NULL }));
-            w.send(G1(Pay { serial: 0, ent: EntityId::NULL }));
+            w.send(G0(Pay::new(0, EntityId::NULL)));
+            w.send(G1(Pay::new(0, EntityId::NULL)));
         });
         let k1_ok = ids.iter().all(|&e| world.get::<K1>(e).map(|k| k.v == 1).unwrap_or(true));
         let live = world.entities().len();
